@@ -292,7 +292,10 @@ func randSMName(r *rand.Rand) string {
 }
 
 func randSMString(r *rand.Rand) string {
-	pieces := []string{"a", " ", "\n", "\r", "\r\n", "é", "xyz", "\t", "日本", ";", "\n\n"}
+	// only LF, CR LF and CR are line breaks for the builder (the statement names exactly these): U+2028 / U+2029 / NEL,
+	// their neighbours in the E2 80 xx block, form feed, vertical tab and stray UTF-8 bytes are ordinary column advances
+	pieces := []string{"a", " ", "\n", "\r", "\r\n", "é", "xyz", "\t", "日本", ";", "\n\n",
+		"\u2028", "\u2029", "\u0085", "\u2027", "\u202a", "€", "\xe2", "\xe2\x80", "\x80\xa8", "\f", "\v", "\x00"}
 	n := r.IntN(8)
 	var sb strings.Builder
 	for i := 0; i < n; i++ {
